@@ -1,8 +1,9 @@
 ---------------------------- MODULE Gen_DeadCode ----------------------------
 (* spec -> impl generator of unreachable code (C06, C12): behind `j end`, K   *)
 (* labelled statements, each a jump or a conditional branch to any of the K   *)
-(* labels, an instruction that makes a value known, or one that makes it      *)
-(* unknown - every arrangement (exhaustive for the K of the configuration).   *)
+(* labels, a jump with a link register other than ra (it writes a register    *)
+(* and has two successors), an instruction that makes a value known, or one   *)
+(* that makes it unknown - every arrangement (exhaustive for the K of the configuration).   *)
 (* No statement of the region has a predecessor that the analyses reach from  *)
 (* the program entry: these are the graphs on which the value analysis has to *)
 (* pick its own starting points (the root rule of PassLoop.tla), and the ones *)
@@ -13,9 +14,11 @@ CONSTANTS K, Reach
 VARIABLES phase, blocks
 vars == <<phase, blocks>>
 S(n) == ToString(n)
-Kinds == ({"j", "b"} \X (1..K)) \cup {<<"g", 0>>, <<"p", 0>>}
+\* "l": a jump that also writes a register and falls through (jal t1, B): a node with a value and two successors
+Kinds == ({"j", "b", "l"} \X (1..K)) \cup {<<"g", 0>>, <<"p", 0>>}
 Stmt(x) == CASE x[1] = "j" -> "    j B" \o S(x[2]) \o "\n"
              [] x[1] = "b" -> "    beq a0, a1, B" \o S(x[2]) \o "\n"
+             [] x[1] = "l" -> "    jal t1, B" \o S(x[2]) \o "\n"
              [] x[1] = "g" -> "    li t0, 5\n"
              [] OTHER      -> "    addi t0, t0, 1\n"
 RECURSIVE Region(_, _)
